@@ -6,6 +6,9 @@
  * the first waitpid(-pgid, WNOHANG) call that will find the step's main
  * process already exited (a zombie) - the request arrives after the runner's
  * last look at its signal flag and before it reaps the step.
+ * C07_RAISE_AT=handshake: the forked child (still the runner's image) holds
+ * back its setsid() for 300 ms and, 120 ms into that window, sends SIGTERM to
+ * the runner, which is then waiting for the process group to appear.
  */
 #define _GNU_SOURCE
 #include <dlfcn.h>
@@ -56,6 +59,23 @@ fork(void)
 	if (pid > 0)
 		maybe_raise("fork");
 	return pid;
+}
+
+pid_t
+setsid(void)
+{
+	static pid_t (*real)(void);
+	const char *at = getenv("C07_RAISE_AT");
+
+	if (real == NULL)
+		real = (pid_t (*)(void))dlsym(RTLD_NEXT, "setsid");
+	if (!fired && at != NULL && strcmp(at, "handshake") == 0 && is_runner()) {
+		fired = 1;
+		usleep(120 * 1000);
+		kill(getppid(), SIGTERM);
+		usleep(180 * 1000);
+	}
+	return real();
 }
 
 pid_t
